@@ -55,9 +55,14 @@ CLAIMED["C13"]=dict(
    ref="6 C13")
 CLAIMED["C15"]=dict(
    technique="model-based (stateful) property-based testing: generated edit/evaluate histories over a module graph applied to one long-lived VM; oracles = a Rust model of what the latest sources mean, a fresh VM given only the latest sources (differential), and a tick counter per module body",
-   text="Exploration: 5k (quick) / 150k (thorough) histories of 4-14 steps over up to 8 module names with value/type/edge/cycle/break/repair edits through load_script and add_module, evaluations importing 1-3 modules. Found and fixed: a module loaded after a failed import of it stayed 'not found'.",
+   text="Exploration: 30k (quick) / 600k (thorough) histories of 4-14 steps over up to 8 module names with value/type/edge/cycle/break/repair edits through load_script and add_module, evaluations importing 1-3 modules. Found and fixed: a module loaded after a failed import of it stayed 'not found'.",
    note="with a cycle among the imports only failure-ness is compared with the fresh VM (blamed module and follow-up diagnostics depend on query order); the model still requires the error to name a module on the cycle",
    ref="6 C15")
+CLAIMED["C17"]=dict(
+   technique="model-based property-based testing: operation sequences over channels, references, lazies and green threads compiled into one Gluon IO program each, observations logged through host functions and compared with an executable model; exhaustive enumeration of short sequences plus proptest-generated long ones; CPU-idle stall detection for hangs",
+   text="Exploration: all well-scoped main-thread sequences of length <= 4 (quick) / <= 6 (thorough) over a 9-operation alphabet in 4 scenarios, plus 6k / 200k generated sequences of up to 24 / 40 operations with up to 3 lazies (constant, failing, self-dependent) and 3 green threads. Found and fixed: forces of a failed lazy from another thread hung; resuming a thread that died re-entered the failed call.",
+   note="thunks never yield; only the main thread spawns/resumes; hang = no answer and no CPU consumed for 3 s in a workload without sleeps or I/O",
+   ref="6 C17")
 NOT_YET = {}
 def main():
     props=[json.loads(l) for l in open('/verif/properties.jsonl')]
